@@ -211,6 +211,5 @@ def main(chk):
         chk.sample({"program": progs[i], "impl": {k: res[i]["impl"].get(k) for k in ("kind", "repr", "errk", "errmsg", "out")},
                     "model_verdict": res[i]["verdict"]})
     chk.cov["rule"] += " Added after seeded round 5: steps naming an absent property (outcome independent of the recorded message finding), 54 built-in / native property names of arr / str / int / float / range / map as steps (those that the unchanged tree forwards to the value)."
-    chk.cov["rule"] += " "
     return pancore.conclude(chk, ok, broken, "Props/C13.v", res, viol, model_only, "C13",
                             "Core.Interp + native Wrappable/Either*.pangaea (from gen/World.v) vs props/either_*_props.go, evaluator/eval_proxyliteral.go")
